@@ -11,6 +11,7 @@ PROFILES = [
     ("random", {}),
     ("period-varying-space", {"p_r": 1.0, "p_per_filter": 1.0, "p_state_filter": 0.5, "T": [2, 3, 4], "max_cells": 1000}),
     ("two-stochastic", {"p_h": 1.0, "p_h_stoch": 1.0, "p_e": 1.0, "T": [2, 3], "p_z": 0.0}),
+    ("stochastic, transition weights that do not sum to one", {"p_h": 1.0, "p_h_stoch": 1.0, "p_e": 0.3, "p_unnormalised": 1.0, "T": [2, 3], "p_z": 0.0}),
     ("two-continuous-states", {"p_w": 1.0, "p_z": 1.0, "p_e": 0.0, "T": [2, 3], "sizes": {"w": 5}, "max_cells": 2500}),
     ("two-continuous-states, second longer", {"p_w": 1.0, "p_z": 1.0, "p_e": 0.0, "T": [2, 3], "sizes": {"w": 3, "z": 5}, "max_cells": 2500}),
     ("several filters", {"p_r": 1.0, "p_choice_filter": 1.0, "p_state_filter": 0.5, "p_q": 0.4, "T": [2, 3]}),
@@ -20,10 +21,6 @@ PROFILES = [
     ("inexact-beta-and-tables", {"inexact": True}),
     ("log-grid", {"p_log": 1.0, "p_w": 1.0, "p_z": 0.0}),
     ("filtered-and-unfiltered-choice", {"p_r": 1.0, "p_b": 1.0}),
-    ("a discrete state with 300 labels (more than a byte can index)", {"p_w": 0.0, "p_z": 0.0, "p_h": 1.0, "p_h_stoch": 0.0, "p_e": 0.0, "p_r": 0.0, "p_b": 0.3,
-                                                                       "sizes": {"h": 300}, "T": [1, 2], "max_cells": 4000, "p_dead_label": 0.0}),
-    ("many variables (17-20), most with a single label", {"pad_states": 14, "p_w": 1.0, "p_h": 1.0, "p_r": 0.5, "p_z": 0.0, "p_e": 0.0, "p_d": 0.0,
-                                                          "T": [1, 2], "max_cells": 2500}),
 ]
 
 
